@@ -187,6 +187,8 @@ func importSet(f *ast.File) map[string]string {
 
 // constraintLines extracts the build-constraint lines above the package clause.
 func constraintLines(src string) (gobuild []string, plus []string) {
+	// (the go tool ignores a byte order mark at the beginning of a file)
+	src = strings.TrimPrefix(src, "\ufeff")
 	for _, line := range strings.Split(src, "\n") {
 		t := strings.TrimSpace(line)
 		if strings.HasPrefix(t, "package ") {
